@@ -92,3 +92,10 @@ Print Assumptions C02_final_pattern_bytes_eq.
 Theorem C02_disabled_no_words : forall p spats, disabledb p = true -> pattern_words p spats = [].
 Proof. exact disabled_no_words. Qed.
 Print Assumptions C02_disabled_no_words.
+Theorem C02_gemmx_customise_sound :
+  forall k ser sd2 ps out, gemmx_customise k ser sd2 ps = Some out ->
+  List.length out = 5%nat /\ Forall (slot_ok ps) out /\
+  forall i p, nth_error ps i = Some p ->
+    exists q, In (q, SOp i) out /\ sp_ub q = sp_ub p /\ sp_ts q = sp_ts p.
+Proof. exact gemmx_customise_sound. Qed.
+Print Assumptions C02_gemmx_customise_sound.
